@@ -574,4 +574,96 @@ func c15SizesAndSpellings(ctx *Ctx, r *rand.Rand, dir string, caseNo *int) {
 	}
 	os.RemoveAll(filepath.Join(dir, "store"))
 	os.RemoveAll(filepath.Join(dir, "entry"))
+
+	// ---- permission bits of loadable files: whatever the mode says about other users, a file this user can read loads
+	for _, mode := range []os.FileMode{0o666, 0o777, 0o606, 0o660, 0o664, 0o644, 0o444, 0o400, 0o604, 0o755, 0o600} {
+		for _, which := range []string{"main", "notebook", "both"} {
+			if !mine() {
+				continue
+			}
+			mp, pp := filepath.Join(dir, "mode-main.yml"), filepath.Join(dir, "mode-pers.yml")
+			os.Remove(mp)
+			os.Remove(pp)
+			vlib.WriteYAML(mp, realMain)
+			vlib.WriteYAML(pp, realPers)
+			if which != "notebook" {
+				os.Chmod(mp, mode)
+			}
+			if which != "main" {
+				os.Chmod(pp, mode)
+			}
+			check(map[string]interface{}{"class": "file-mode", "mode": fmt.Sprintf("%04o", mode), "applied_to": which}, mp, pp, both, "file-modes")
+			os.Chmod(mp, 0o644)
+			os.Chmod(pp, 0o644)
+			os.Remove(mp)
+			os.Remove(pp)
+		}
+	}
+
+	// ---- the file is replaced between two loads of one process by content of the same length, its modification time kept
+	// (cp -p, rsync -t, a restore): the second load gives the new content - or, when that does not decode, the fallback
+	for k := 0; k < 6; k++ {
+		if !mine() {
+			continue
+		}
+		mp, pp := filepath.Join(dir, "repl-main.yml"), filepath.Join(dir, "repl-pers.yml")
+		a := vlib.StripCaches(vlib.GenCommands(r, vlib.DBSpec{N: 5, PseudoCmd: true}))
+		b := append([]vlib.Cmd(nil), a...)
+		for i := range b { // same length, other words
+			b[i].Description = strings.Map(func(c rune) rune {
+				if c >= 'a' && c < 'z' {
+					return c + 1
+				}
+				return c
+			}, b[i].Description)
+			b[i].Command = "z" + b[i].Command[1:]
+		}
+		target, other := mp, pp
+		if k%2 == 1 {
+			target, other = pp, mp
+		}
+		vlib.WriteYAML(target, a)
+		vlib.WriteYAML(other, realPers)
+		st, _ := os.Stat(target)
+		cfg1 := recovery.RetryConfig{MaxAttempts: 1}
+		if _, err := recovery.NewDatabaseRecovery(cfg1).LoadDatabaseWithFallback(mp, pp); err != nil {
+			continue
+		}
+		broken := k >= 4
+		if broken {
+			raw, _ := os.ReadFile(target)
+			copy(raw, []byte("{{{{ not yaml any more"))
+			os.WriteFile(target, raw, 0o644)
+		} else {
+			vlib.WriteYAML(target, b)
+		}
+		if st2, _ := os.Stat(target); st != nil && st2 != nil && st2.Size() == st.Size() {
+			os.Chtimes(target, st.ModTime(), st.ModTime())
+			ctx.R.Path("same-size-same-mtime-replacements", 1)
+		}
+		var want []vlib.Cmd
+		switch {
+		case k%2 == 0:
+			want = append(append([]vlib.Cmd{}, b...), realPers...)
+		default:
+			want = append(append([]vlib.Cmd{}, realPers...), b...)
+		}
+		cs := map[string]interface{}{"class": "replaced-between-two-loads", "replaced": map[bool]string{true: "notebook", false: "main"}[k%2 == 1], "new_content_decodes": !broken}
+		if broken {
+			ctx.R.Begin(cs)
+			ctx.R.Eval(1)
+			ctx.R.Guard("C15", "LoadDatabaseWithFallback", cs, func() {
+				db, err := recovery.NewDatabaseRecovery(cfg1).LoadDatabaseWithFallback(mp, pp)
+				stale := db != nil && len(db.Commands) == len(a)+len(realPers)
+				if err != nil || db == nil || stale {
+					ctx.R.Violate(vlib.Violation{Property: "C15", Clause: "fallback-not-built-in", Path: "LoadDatabaseWithFallback/replaced-between-two-loads",
+						Detail: fmt.Sprintf("a file that no longer decodes (same size and modification time as before) gave error %v / the entries it held at the previous load (%v)", err, stale), Witness: cs})
+				}
+			})
+		} else {
+			check(cs, mp, pp, want, "replaced-between-two-loads")
+		}
+		os.Remove(mp)
+		os.Remove(pp)
+	}
 }
